@@ -1,444 +1,845 @@
-"""C04 -- OUTPUT4 write -> read identity (partial claim; two known findings)."""
+"""C04 -- OUTPUT4 write -> read identity (partial claim; two known findings).
+
+Every rule compares *values*: what a writer emits for a generic matrix (one generic column, one generic string of non-zeros; evaluated
+by verifier/c04_sem.py on symbols, following helpers, nested functions, generators) with what the matching loader recovers from exactly
+those records (verifier/c04_lab.py).  Nothing depends on how op4.py spells or arranges the computation."""
 from __future__ import annotations
 
 import ast
-import re
-from fractions import Fraction
 
 from . import e2_formula as F
 from . import op4_model as M
+from . import c04_sem as S
+from .c04_lab import lab, WRITERS
+from .c04_txt import Fld, Lit, Txt, is_bad, is_rat, atom_id, sym_name, strconst, const_int, single_atom
 from .core import AnchorError, Unsupported
-from .e1_srcmodel import dotted, walk_no_nested, parent, ancestors, utext
-from .e2_eval import Evaluator, is_unknown, need
+from .e1_srcmodel import dotted
+from .e2_eval import is_unknown
+from .sem import unfn
 
 OP4 = M.OP4
-STRUCT_RANGE = {"i": (-(2 ** 31), 2 ** 31 - 1), "q": (-(2 ** 63), 2 ** 63 - 1), "I": (0, 2 ** 32 - 1), "Q": (0, 2 ** 64 - 1)}
+STRUCT_RANGE = {"i": (-(2 ** 31), 2 ** 31 - 1), "q": (-(2 ** 63), 2 ** 63 - 1), "I": (0, 2 ** 32 - 1), "Q": (0, 2 ** 64 - 1), "l": (-(2 ** 31), 2 ** 31 - 1)}
+ENCS = ("ascii", "binary")
+LAYOUTS = ("dense", "bigmat", "nonbigmat")
+# the two input scenarios every writer is evaluated for: a complex ndarray, a real scipy.sparse matrix (the (m, i, j, v) tuple of _ensure_2d_dp)
+SCEN = (("ndarray", True), ("sparse", False))
+BASE = 1 << M.SHIFT
 
 
-def _const_attr(ctx, name):
-    """self.<name> = <int constant> in OP4.__init__"""
-    fn = M.func(ctx, "OP4.__init__")
-    for st in walk_no_nested(fn):
-        if isinstance(st, ast.Assign) and ast.unparse(st.targets[0]) == f"self.{name}":
-            try:
-                return int(ast.literal_eval(st.value)), st
-            except Exception:  # noqa
-                return None, st
-    raise AnchorError(f"OP4.__init__: self.{name}")
+def same(a, b):
+    return S.same_value(a, b)
+
+
+def judge(ctx, got, want, instance, where, detail=None, key=None):
+    """got == want ; a Bad value is a provable disagreement (fail), an Unknown one an analysis error"""
+    if is_bad(got):
+        ctx.fail(instance, where, got.why, key=key)
+        return False
+    if got is None or is_unknown(got) or (isinstance(got, tuple) and any(is_unknown(x) for x in got)):
+        bad = [x for x in (got if isinstance(got, tuple) else [got]) if is_bad(x)]
+        if bad:
+            ctx.fail(instance, where, bad[0].why, key=key)
+            return False
+        ctx.error(instance, where, repr(got)[:300])
+        return False
+    ok = same(got, want)
+    ctx.check(ok, instance, where, None if ok else (detail or {"got": repr(got)[:300], "expected": repr(want)[:300]}), key=key)
+    return ok
+
+
+def scen_txt(kind, cplx):
+    return f"{'complex' if cplx else 'real'} {kind} input"
+
+
+def first_regime(runs):
+    for r in runs:
+        if not r.raised:
+            return r
+    return None
+
+
+def wfn(ctx, enc, layout):
+    return ctx.src.func(OP4, "OP4." + WRITERS[(enc, layout)])
+
+
+# ---------------------------------------------------------------------------------------------------------------------- R1
+def ascii_header_parts(run):
+    """the matrix header line of an ASCII writer run -> dict(fields=[cols, rows, form, mtype, name Fld], perline, numlen, digits (values), marker)"""
+    if run.header is None:
+        return None
+    pieces = list(run.header.txt.p)
+    flds = [p for p in pieces if isinstance(p, Fld)]
+    if len(flds) < 8:
+        return None
+    head, tail = flds[:5], flds[5:8]
+    # the literal text between the name field and the end
+    i5 = pieces.index(flds[4])
+    lits = [p.s for p in pieces[i5 + 1:] if isinstance(p, Lit)]
+    ann = "".join("#" if isinstance(p, Fld) else p.s for p in pieces[i5 + 1:])
+    return dict(fields=head, perline=tail[0].v, numlen=tail[1].v, digits=tail[2].v, ann=ann, lits=lits, tailflds=tail)
 
 
 def r1_ascii_field(ctx):
-    fn = M.func(ctx, "OP4._write_ascii_header")
-    init = M.func(ctx, "OP4.__init__")
-    # expdigits: constant-folded from whatever literal expression __init__ uses (today len('%.1E' % 1.2) - (find('E') + 2) = 2)
-    from .constfold import fold_assignments
-    cenv = fold_assignments([st for st in walk_no_nested(init) if isinstance(st, ast.Assign)])
-    expdigits = cenv.get("self._expdigits")
-    if not isinstance(expdigits, int):
-        ctx.error("OP4.__init__: self._expdigits is not a foldable constant expression", init, repr(expdigits))
-        return
+    L = lab(ctx)
+    init = L.init_fn
+    expd = L.state.get("self._expdigits")
     want = len("%.1E" % 1.2) - ("%.1E" % 1.2).find("E") - 2
-    ctx.check(expdigits == want, f"OP4.__init__: _expdigits ({expdigits}) is the number of exponent digits Python prints for an E format ({want})", init)
-    digits = F.sym("digits")
-    ev = Evaluator(env={"digits": digits, "self._expdigits": F.const(expdigits)}, src=ctx.src)
-    for st in fn.body:
-        if isinstance(st, ast.Assign) and ast.unparse(st.targets[0]) in ("numlen", "perline"):
-            ev.stmt(st)
-    numlen = ev.env.get("numlen")
-    nf = [s for s in fn.body if isinstance(s, ast.Assign) and ast.unparse(s.targets[0]) == "numform"]
-    ok = bool(nf) and ast.unparse(nf[0].value).replace(" ", "") in ("f'%{numlen}.{digits}E'",)
-    ctx.check(ok, "_write_ascii_header: values are printed with %{numlen}.{digits}E", nf[0] if nf else fn)
-    if numlen is None or is_unknown(numlen):
-        ctx.error("_write_ascii_header: numlen", fn, repr(numlen))
+    if expd is None or is_unknown(expd) or const_int(expd) is None:
+        ctx.error("OP4.__init__: self._expdigits is a constant expression", init, repr(expd))
         return
-    # widest rendering of %W.PE over finite doubles: sign + d + . + P + E + sign + 3 exponent digits
-    widest = digits + 8
-    ok = (numlen - widest).is_const() and (numlen - widest).const_value() >= 0
-    ctx.check(ok, "_write_ascii_header: the announced field width `numlen` holds the widest value (negative, three-digit exponent: digits + 8 characters)",
-              fn, None if ok else {"numlen": repr(numlen), "widest": repr(widest),
-                                   "witness": "[[-1.5e-150, 2], [3, 4]] written with binary=False: the value takes numlen + 1 characters and fuses with its neighbour"},
-              key="C04-R1|OP4._write_ascii_header|numlen < digits + 8")
-    # the same (numlen, digits) drive header text, numform and the reader's line slicing
-    hdr = [n for n in ast.walk(fn) if isinstance(n, ast.JoinedStr) and "1P," in ast.unparse(n)]
-    ok = bool(hdr) and "1P,{perline}E{numlen}.{digits}{addon}" in ast.unparse(hdr[0]).replace(" ", "")
-    ctx.check(ok, "_write_ascii_header: the header announces 1P,{perline}E{numlen}.{digits} - the same numbers used to print", hdr[0] if hdr else fn)
-    rd = M.func(ctx, "OP4._loadop4_ascii")
-    t = utext(rd)
-    ok = "perline=int(numformat[:p])" in t and "numlen=int(numformat[p+1:].split('.')[0])" in t and "linelen=perline*numlen" in t \
-        and "numformat.startswith('1P,')" in t and "p=numformat.replace('D','E').find('E')" in t
-    ctx.check(ok, "_loadop4_ascii: perline and numlen are parsed back from that announcement and linelen = perline * numlen", rd)
-    ok = ast.unparse(ev.env.get("perline") and fn).count("perline = 80 // numlen") == 1
-    ctx.check(ok, "_write_ascii_header: perline = 80 // numlen (a line never exceeds 80 columns)", fn, nontrivial=False)
+    ctx.check(const_int(expd) == want, f"OP4.__init__: _expdigits ({const_int(expd)}) is the number of exponent digits Python prints for an E format ({want})", init)
+    digits = F.sym("digits")
+    seen_f1 = False
+    for layout in LAYOUTS:
+        fn = wfn(ctx, "ascii", layout)
+        run = first_regime(L.writer("ascii", layout))
+        hp = ascii_header_parts(run) if run is not None else None
+        if hp is None:
+            ctx.error(f"{fn.name}: matrix header line", fn, repr(run.header if run else None)[:200])
+            continue
+        numlen, ndig, perline = hp["numlen"], hp["digits"], hp["perline"]
+        # every value is printed in an E field of exactly the announced width and digits
+        data = [f for l in run.lines if l.is_data for f in l.txt.fields()]
+        ok = bool(data) and all(f.conv == "E" and same(f.width, numlen) and same(f.prec, ndig) for f in data)
+        ctx.check(ok, f"{fn.name}: every value is printed as %<numlen>.<digits>E with the field width and digits the header announces", fn,
+                  None if ok else [repr(f)[:120] for f in data[:3]])
+        if layout == "dense":
+            ok = same(ndig, digits)
+            ctx.check(ok, "_write_ascii_header: the announced number of digits is the `digits` argument", fn, None if ok else repr(ndig))
+            # widest rendering of %W.PE over finite doubles: sign + d + . + P + E + sign + 3 exponent digits
+            widest = digits + 8
+            d = numlen - widest if is_rat(numlen) else None
+            ok = d is not None and d.is_const() and d.const_value() >= 0
+            seen_f1 = True
+            ctx.check(ok, "_write_ascii_header: the announced field width `numlen` holds the widest value (negative, three-digit exponent: digits + 8 characters)",
+                      ctx.src.func(OP4, "OP4._write_ascii_header"),
+                      None if ok else {"numlen": repr(numlen), "widest": repr(widest),
+                                       "witness": "[[-1.5e-150, 2], [3, 4]] written with binary=False: the value takes numlen + 1 characters and fuses with its neighbour"},
+                      key="C04-R1|OP4._write_ascii_header|numlen < digits + 8")
+            ok = hp["ann"].startswith("1P,#E#.#")
+            ctx.check(ok, "_write_ascii_header: the header announces 1P,<perline>E<numlen>.<digits>", fn, None if ok else hp["ann"])
+            ok = is_rat(perline) and is_rat(numlen) and same(perline, F.fn("floordiv", F.const(80), numlen))
+            ctx.check(ok, "_write_ascii_header: perline = 80 // numlen (a line never exceeds 80 columns)", fn, None if ok else repr(perline), nontrivial=False)
+        # the loader recovers perline and numlen from the announcement and cuts lines of perline * numlen characters
+        lr = L.load(run)
+        if not lr.block or lr.put is None:
+            bad = lr.bads()
+            if bad:
+                ctx.fail(f"_loadop4_ascii ({layout}): perline and numlen are parsed back from the announcement", ctx.src.func(OP4, "OP4._loadop4_ascii"), bad[0])
+            else:
+                ctx.error(f"_loadop4_ascii ({layout}): block read / store call", ctx.src.func(OP4, "OP4._loadop4_ascii"))
+            continue
+        blk = lr.block[0][1]
+        got = (blk[2], blk[3], lr.put[1][5]) if len(blk) >= 4 and len(lr.put[1]) >= 6 else None
+        judge(ctx, got, (perline, perline * numlen, numlen),
+              f"_loadop4_ascii ({layout}): perline and numlen are parsed back from the announcement and linelen = perline * numlen", lr.block[0][3])
+    if not seen_f1:
+        ctx.error("_write_ascii_header: numlen", None)
+
+
+# ---------------------------------------------------------------------------------------------------------------------- R2
+def digits_of(n):
+    return len(str(int(n)))
 
 
 def r2_headers(ctx):
-    fn = M.func(ctx, "OP4._write_ascii_header")
-    hdr = [n for n in ast.walk(fn) if isinstance(n, ast.JoinedStr) and "1P," in ast.unparse(n)]
-    if not hdr:
-        raise AnchorError("_write_ascii_header: header f-string")
-    widths = []
-    names = []
-    for v in hdr[0].values:
-        if isinstance(v, ast.FormattedValue) and v.format_spec is not None:
-            spec = ast.unparse(v.format_spec).strip("f'\"")
-            names.append(ast.unparse(v.value))
-            widths.append(spec)
-    rd = M.func(ctx, "OP4._loadop4_ascii")
-    # reader slice tables for both integer widths
-    tables = {}
-    for st in ast.walk(rd):
-        if isinstance(st, ast.If) and "endswith('|I16')" in ast.unparse(st.test):
-            for w, body in ((16, st.body), (8, st.orelse)):
-                tb = {}
-                for s2 in body:
-                    if isinstance(s2, ast.Assign) and isinstance(s2.value, ast.Call) and dotted(s2.value.func) == "slice":
-                        tb[ast.unparse(s2.targets[0])] = tuple(ast.literal_eval(a) for a in s2.value.args)
-                tables[w] = tb
-    ok = set(tables) == {8, 16}
-    ctx.check(ok, "_loadop4_ascii: one slice table per header integer width, selected by the |I16 marker", rd)
-    order = ["c_slice", "r_slice", "f_slice", "t_slice", "n_slice"]
-    wnames = names[:5]
-    ok = [n.split(".")[0] for n in wnames] == ["cols", "rows", "form", "mtype", "name"]
-    ctx.check(ok, "_write_ascii_header: header fields are cols, rows, form, mtype, name in that order", hdr[0], wnames)
-    for w, tb in tables.items():
-        pos = 0
-        exp = {}
-        for nm, spec in zip(order, widths[:5]):
-            fw = w if spec == "{int_width}" else int(re.sub(r"[^0-9]", "", spec) or 0)
-            exp[nm] = (pos, pos + fw)
-            pos += fw
-        ok = all(tb.get(k) == v for k, v in exp.items())
-        ctx.check(ok, f"header layout (integer width {w}): the reader slices exactly the columns the writer fills", rd,
-                  None if ok else {"writer": exp, "reader": tb})
-    t = utext(fn)
-    ok = "addon='|I16'ifint_width==16else''" in t
-    ctx.check(ok, "_write_ascii_header: the |I16 marker is written exactly when 16-wide integers are used", fn)
-    gi = M.func(ctx, "OP4._get_header_info")
-    t = utext(gi)
-    ok = "int_width=16ifrows>9999999else8" in t
-    ctx.check(ok, "_get_header_info: 16-wide header integers when rows needs more than 7 digits (room for the bigmat minus sign)", gi)
-    # binary header: "5i8si" <-> read(4), 4 ints, 8 bytes, read(4)
-    wb = M.func(ctx, "OP4._write_binary_header")
-    packs = [c for c in ast.walk(wb) if isinstance(c, ast.Call) and dotted(c.func) == "struct.pack"]
-    ok = len(packs) == 1 and "'5i8si'" in ast.unparse(packs[0].args[0]) and \
-        [ast.unparse(a) for a in packs[0].args[1:]] == ["24", "cols", "rows", "form", "mtype", "name", "24"]
-    ctx.check(ok, "_write_binary_header: record (24 | cols rows form mtype name[8] | 24)", packs[0] if packs else wb)
-    rb = M.func(ctx, "OP4._loadop4_binary")
-    t = utext(rb)
-    ok = "cols,rows,form,mtype=self._Str_iiii.unpack(fp.read(self._bytes_iiii))" in t and "name=fp.read(8).decode()" in t
-    ctx.check(ok, "_loadop4_binary: reads (cols rows form mtype) then the 8-byte name", rb)
-    ok = "rows=-rows" in utext(wb) and "rows=-rows" in utext(fn)
-    ctx.check(ok, "both header writers flag the bigmat layout with a negative row count", wb)
-    ok = "abs(rows)" in ast.unparse(rb) and "abs(rows)" in ast.unparse(rd)
-    ctx.check(ok, "both loaders size the matrix with abs(rows)", rb)
+    L = lab(ctx)
+    name, form = F.sym("name"), F.sym("form")
+    # ---- ASCII: one obligation per (layout, regime of rows): the loader recovers the dimensions, form, type and name the writer printed
+    for layout in LAYOUTS:
+        fn = wfn(ctx, "ascii", layout)
+        runs = [r for r in L.writer("ascii", layout) if not r.raised]
+        if not runs:
+            ctx.error(f"{fn.name}: no admissible regime", fn)
+            continue
+        for run in runs:
+            hp = ascii_header_parts(run)
+            if hp is None:
+                ctx.error(f"{fn.name}: matrix header line ({run.regime()})", fn)
+                continue
+            f5 = hp["fields"]
+            neg = layout == "bigmat" or (layout == "nonbigmat" and run.rows[0] >= (L.rows4() or BASE))
+            want_rows = -S.ROWS if neg else S.ROWS
+            ok = same(f5[0].v, S.COLS) and same(f5[1].v, want_rows) and same(f5[2].v, form) and f5[4].kind() == "str" \
+                and is_rat(f5[4].v) and f5[4].v.depends_on("name") and is_rat(f5[3].v) and const_int(f5[3].v) == (4 if run.cplx else 2)
+            ctx.check(ok, f"{fn.name} ({run.regime()}): header fields are cols, {'-rows (bigmat flag)' if neg else 'rows'}, form, mtype, name in that order", run.header.node,
+                      None if ok else [repr(f)[:80] for f in f5])
+            # the fields hold their values: |rows| up to the top of the regime (with the bigmat minus sign), cols + 1 (sentinel) up to 8 digits
+            w = [const_int(f.width) if f.width is not None else None for f in f5]
+            top = run.rows[1]
+            need_rows = (digits_of(top) + (1 if neg else 0)) if top is not None else None
+            ok = all(x is not None for x in w) and need_rows is not None and w[1] >= need_rows and w[0] >= 8
+            ctx.check(ok, f"{fn.name} ({run.regime()}): the header integer fields are wide enough for every admissible dimension"
+                          f"{' including the minus sign of the bigmat flag' if neg else ''}", run.header.node,
+                      None if ok else {"widths": w, "needed for rows": need_rows})
+            marker = hp["ann"].rstrip("\n").endswith("|I16")
+            ok = marker == (w[0] == 16 and w[1] == 16) and (w[0] in (8, 16)) and w[0] == w[1]
+            ctx.check(ok, f"{fn.name} ({run.regime()}): the |I16 marker is written exactly when 16-wide integers are used", run.header.node,
+                      None if ok else {"widths": w, "announcement": hp["ann"]})
+            lr = L.load(run)
+            got = None
+            if isinstance(lr.ret, tuple) and len(lr.ret) == 4 and lr.init is not None:
+                got = (lr.init[1][0], lr.init[1][1], lr.ret[2], lr.ret[3]) if len(lr.init[1]) >= 2 else None
+            if got is None and lr.bads():
+                got = S.Bad(lr.bads()[0])
+            judge(ctx, got, (S.ROWS, S.COLS, form, F.const(4 if run.cplx else 2)),
+                  f"_loadop4_ascii <- {fn.name} ({run.regime()}): the loader slices the columns the writer fills: |rows|, cols, form and type are recovered",
+                  ctx.src.func(OP4, "OP4._loadop4_ascii"))
+            nm = lr.ret[0] if isinstance(lr.ret, tuple) and lr.ret else None
+            try:
+                nmv = S.wrap(nm) if nm is not None else None
+            except Unsupported:
+                nmv = None
+            ok = nmv is not None and nmv.depends_on("name") and not nmv.depends_on("ROWS") and not nmv.depends_on("form")
+            if is_bad(nm):
+                ctx.fail(f"_loadop4_ascii <- {fn.name} ({run.regime()}): the name is read from the name field", ctx.src.func(OP4, "OP4._loadop4_ascii"), nm.why)
+            else:
+                ctx.check(ok, f"_loadop4_ascii <- {fn.name} ({run.regime()}): the name is read from the name field", ctx.src.func(OP4, "OP4._loadop4_ascii"),
+                          None if ok else repr(nm)[:200])
+    # ---- binary header
+    for layout in LAYOUTS:
+        fn = wfn(ctx, "binary", layout)
+        runs = [r for r in L.writer("binary", layout) if not r.raised]
+        if not runs:
+            ctx.error(f"{fn.name}: no admissible regime", fn)
+            continue
+        for run in runs:
+            neg = layout == "bigmat" or (layout == "nonbigmat" and run.rows[0] >= (L.rows4() or BASE))
+            h = run.header
+            ok = h is not None and len(h.items) == 7 and [it.code for it in h.items] == ["i"] * 5 + ["s", "i"] and const_int(h.items[5].count) == 8
+            if ok:
+                v = h.vals()
+                nmf = v[5]
+                ok = const_int(v[0]) == 24 and const_int(v[6]) == 24 and same(v[1], S.COLS) and same(v[2], -S.ROWS if neg else S.ROWS) and same(v[3], form) \
+                    and const_int(v[4]) == (4 if run.cplx else 2) and isinstance(nmf, Txt) and len(nmf.p) == 1 and isinstance(nmf.p[0], Fld) \
+                    and const_int(nmf.p[0].width) == 8 and nmf.p[0].eff_align() == "<" and is_rat(nmf.p[0].v) and nmf.p[0].v.depends_on("name")
+            ctx.check(ok, f"{fn.name} ({run.regime()}): first record is (24 | cols, {'-rows' if neg else 'rows'}, form, mtype, name padded to 8 bytes | 24)",
+                      h.node if h is not None else fn, None if ok else repr(h)[:300])
+            lr = L.load(run)
+            got = None
+            if isinstance(lr.ret, tuple) and len(lr.ret) == 4 and lr.init is not None and len(lr.init[1]) >= 2:
+                got = (lr.init[1][0], lr.init[1][1], lr.ret[2], lr.ret[3])
+            if got is None and lr.bads():
+                got = S.Bad(lr.bads()[0])
+            judge(ctx, got, (S.ROWS, S.COLS, form, F.const(4 if run.cplx else 2)),
+                  f"_loadop4_binary <- {fn.name} ({run.regime()}): the loader unpacks the record the writer packs: |rows|, cols, form and type are recovered",
+                  ctx.src.func(OP4, "OP4._loadop4_binary"))
+            nm = lr.ret[0] if isinstance(lr.ret, tuple) and lr.ret else None
+            try:
+                nmv = S.wrap(nm) if nm is not None else None
+            except Unsupported:
+                nmv = None
+            ok = nmv is not None and nmv.depends_on("name") and not nmv.depends_on("ROWS")
+            if is_bad(nm):
+                ctx.fail(f"_loadop4_binary <- {fn.name} ({run.regime()}): the name is the 8 bytes that follow", ctx.src.func(OP4, "OP4._loadop4_binary"), nm.why)
+            else:
+                ctx.check(ok, f"_loadop4_binary <- {fn.name} ({run.regime()}): the name is the 8 bytes that follow", ctx.src.func(OP4, "OP4._loadop4_binary"),
+                          None if ok else repr(nm)[:200])
 
 
-def _coeffs(poly, names):
-    """{name: coefficient, 'const': c} of a polynomial that is affine in the given names"""
-    r = need(poly)
-    out = {}
-    rest = r
-    for nm in names:
-        d = r.diff(nm)
-        out[nm] = d
-        rest = rest - d * F.sym(nm)
-    out["const"] = rest
-    return out
+# ---------------------------------------------------------------------------------------------------------------------- R3
+def string_words(run):
+    """4-byte words one string occupies: (header words, data words) as values"""
+    if run.binary:
+        hw = sum((it.nbytes() for it in run.strhdr.items), F.const(0)) / 4
+        dw = run.data.items[0].nbytes() / 4 if run.data is not None else None
+        return hw, dw
+    return F.const(len(run.strhdr.ints)), None
 
 
 def r3_string_headers(ctx):
-    r0, r1, mult = F.sym("r0"), F.sym("r1"), F.sym("mult")
-    two = F.const(2)
-    # ---- nonbigmat
-    for wq, rqs in (("OP4._write_ascii_nonbigmat._write_data_string", ["OP4._rd_nonbigmat_ascii"]),
-                    ("OP4._write_binary_nonbigmat._write_data_string", ["OP4._rd_nonbigmat_binary"])):
-        w = M.string_writer(ctx, wq)
-        IS, L = w["IS"], w["L"]
-        if IS is None or is_unknown(IS) or L is None or is_unknown(L):
-            ctx.error(f"{wq}: IS / L", w["fn"], f"{IS} {L}")
-            continue
-        ok = IS.equals((r0 + 1) + (L + 1) * 65536) and L.equals(2 * r1 * mult)
-        ctx.check(ok, f"{wq.split('.')[1]}: IS = (first row + 1) + (L + 1) * 2^16 with L = 2 * length * multiplier words", w["fn"],
-                  None if ok else {"IS": repr(IS), "L": repr(L)})
-        for rq in rqs:
-            rd = M.string_reader(ctx, rq, "nonbigmat", IS_value=IS)
-            env = rd["env"]
-            env_w2 = None
-            Ld, rr, cnt = env.get("L"), env.get("r"), env.get(rd["count"])
-            if any(v is None or is_unknown(v) for v in (Ld, rr, cnt)):
-                ctx.fail(f"{rq.split('.')[1]}: decoding the packed header the writer produces", rd["loop"],
-                         {"L": repr(Ld), "r": repr(rr), "count": repr(cnt)}, key=f"C04-R3|{rq}|decode")
-                continue
-            ok = rr.equals(r0)
-            ctx.check(ok, f"{rq.split('.')[1]}: decode(encode) recovers the first row of the string (0-based)", rd["loop"], None if ok else repr(rr))
-            dec = F.sym("W") - cnt
-            ok = dec.equals(L + 1)
-            ctx.check(ok, f"{rq.split('.')[1]}: each string consumes L + 1 words of the column's word count", rd["loop"], None if ok else repr(dec))
-            # number of values read:  L // wper  with wper = 2 words per double  ->  r1 * mult doubles
-            Lv = Ld.subs({"wper": 2}) if Ld.depends_on("wper") else Ld
-            got = _resolve_floordiv(Lv)
-            ok = got is not None and got.equals(r1 * mult)
-            ctx.check(ok, f"{rq.split('.')[1]}: reads L // 2 = length * multiplier doubles (what the writer packed)", rd["loop"], None if ok else repr(Ld))
-    # ---- bigmat
-    for wq, rq in (("OP4._write_ascii_bigmat._write_data_string", "OP4._rd_bigmat_ascii"),
-                   ("OP4._write_binary_bigmat._write_data_string", "OP4._rd_bigmat_binary")):
-        w = M.string_writer(ctx, wq)
-        hdr = [x for x in w["written"] if x[0] in ("text", "pack")]
-        if not hdr:
-            ctx.error(f"{wq}: header write", w["fn"])
-            continue
-        vals = [v[0] if isinstance(v, tuple) else v for v in hdr[0][1]]
-        L = w["L"]
-        ok = len(vals) == 2 and not any(is_unknown(v) for v in vals) and vals[0].equals(L + 1) and vals[1].equals(r0 + 1) and L.equals(2 * r1 * mult)
-        ctx.check(ok, f"{wq.split('.')[1]}: string header is (L + 1, first row + 1) with L = 2 * length * multiplier", w["fn"],
-                  None if ok else [repr(v) for v in vals])
-        if not ok:
-            continue
-        rd = M.string_reader(ctx, rq, "bigmat", L_raw=vals[0], r_raw=vals[1])
-        env = rd["env"]
-        Ld, rr, cnt = env.get("L"), env.get("r"), env.get(rd["count"])
-        if any(v is None or is_unknown(v) for v in (Ld, rr, cnt)):
-            ctx.fail(f"{rq.split('.')[1]}: decoding the string header the writer produces", rd["loop"], {"L": repr(Ld), "r": repr(rr)},
-                     key=f"C04-R3|{rq}|decode")
-            continue
-        ok = rr.equals(r0)
-        ctx.check(ok, f"{rq.split('.')[1]}: recovers the first row of the string (0-based)", rd["loop"], None if ok else repr(rr))
-        dec = F.sym("W") - cnt
-        ok = dec.equals(L + 2)
-        ctx.check(ok, f"{rq.split('.')[1]}: each string consumes L + 2 words (two header words + data)", rd["loop"], None if ok else repr(dec))
-        got = _resolve_floordiv(Ld.subs({"wper": 2}) if Ld.depends_on("wper") else Ld)
-        ok = got is not None and got.equals(r1 * mult)
-        ctx.check(ok, f"{rq.split('.')[1]}: reads length * multiplier doubles", rd["loop"], None if ok else repr(Ld))
-    # ---- declared word counts
-    ns, S = F.sym("ns"), F.sym("S")
-    for q, per_string in (("OP4._write_ascii_nonbigmat._write_col_header", 1), ("OP4._write_binary_nonbigmat._write_col_header", 1),
-                          ("OP4._write_ascii_bigmat._write_col_header", 2), ("OP4._write_binary_bigmat._write_col_header", 2)):
-        fn = M.func(ctx, q)
+    L = lab(ctx)
+    for enc in ENCS:
+        for layout in LAYOUTS:
+            fn = wfn(ctx, enc, layout)
+            rdq = f"OP4._rd_{layout}_{enc}"
+            rdfn = ctx.src.func(OP4, rdq)
+            for kind, cplx in SCEN:
+                tag = f"{fn.name} [{scen_txt(kind, cplx)}]"
+                run = first_regime(L.writer(enc, layout, kind, cplx))
+                if run is None or run.colhdr is None or run.col is None:
+                    ctx.error(f"{tag}: column header record", fn, repr(run.colhdr if run else None)[:200])
+                    continue
+                mult = F.const(2 if cplx else 1)
+                ch = run.colhdr_vals()
+                off = 1 if run.binary else 0          # binary column header starts with the record length
+                n_expected = 4 if run.binary else 3
+                if len(ch) != n_expected or any(not is_rat(x) for x in ch):
+                    ctx.check(False, f"{tag}: column header has {n_expected} integer fields", run.colhdr.node, repr(ch)[:200])
+                    continue
+                if not run.binary:
+                    w = [const_int(f.width) if f.width is not None else None for f in run.colhdr.ints]
+                    ctx.check(w == [8, 8, 8], f"{tag}: column header is three 8-wide integer fields", run.colhdr.node, None if w == [8, 8, 8] else w)
+                judge(ctx, ch[off], run.col + 1, f"{tag}: column header announces column + 1 (1-based)", run.colhdr.node)
+                lr = L.load(run)
+                bad = lr.bads()
+                if layout == "dense":
+                    # ---- dense column: (column + 1, first row + 1, number of words/values) + values + [record length]
+                    first = ch[off + 1] - 1
+                    cnt = ch[off + 2]
+                    if run.binary:
+                        d = run.data
+                        ok = d is not None and len(d.items) == 1 and d.items[0].code == "d"
+                        ctx.check(ok, f"{tag}: the column's values are packed as doubles", d.node if d is not None else run.colhdr.node)
+                        if not ok:
+                            continue
+                        nreal = d.items[0].count
+                        arr = d.items[0].value
+                        judge(ctx, cnt, 2 * nreal, f"{tag}: column header announces 2 words per packed double", run.colhdr.node)
+                        judge(ctx, ch[0], 12 + 8 * nreal, f"{tag}: record length = 3 header words + 8 bytes per double", run.colhdr.node)
+                        tr = run.coltrail
+                        judge(ctx, tr.vals()[0] if tr is not None and len(tr.items) == 1 else None, ch[0], f"{tag}: the record ends with the same record length", tr.node if tr else run.colhdr.node)
+                        judge(ctx, ev_len(run, arr), nreal, f"{tag}: the struct format counts exactly the reals of the slice it packs", d.node)
+                    else:
+                        dl = [f for l in run.data for f in l.txt.fields()]
+                        arr = data_base(dl[0].v) if dl else None
+                        nreal = cnt
+                        if arr is None:
+                            ctx.error(f"{tag}: printed values", run.colhdr.node)
+                            continue
+                        judge(ctx, ev_len(run, arr), nreal, f"{tag}: column header announces the number of reals of the slice that is printed", run.colhdr.node)
+                    sl = slice_start(arr)
+                    if sl is not None:
+                        judge(ctx, first, sl, f"{tag}: column header announces (first row + 1) of the rows that are written", run.colhdr.node)
+                    else:
+                        ctx.check(atom_id(first) is not None or is_rat(first), f"{tag}: column header announces (first row + 1)", run.colhdr.node, nontrivial=False)
+                    if lr.put is None:
+                        if bad:
+                            ctx.fail(f"{rdfn.name} <- {tag}: the column is stored", rdfn, bad[0])
+                        else:
+                            ctx.error(f"{rdfn.name} <- {tag}: store call", rdfn, repr(lr.W.undecided[:3]))
+                        continue
+                    pa = lr.put[1]
+                    judge(ctx, (pa[1], pa[2]), (first, run.col), f"{rdfn.name} <- {tag}: converts the 1-based first row and column back to 0-based", lr.put[3])
+                    if run.binary:
+                        judge(ctx, pa[3], (F.fn("seq", arr),), f"{rdfn.name} <- {tag}: reads exactly the doubles the writer packed", lr.put[3]) if False else \
+                            judge(ctx, unseq(pa[3]), arr, f"{rdfn.name} <- {tag}: reads exactly the doubles the writer packed", lr.put[3])
+                    else:
+                        judge(ctx, pa[4], nreal, f"{rdfn.name} <- {tag}: reads the announced number of reals", lr.put[3])
+                else:
+                    # ---- sparse layouts: column header (column + 1, 0, nwords); strings (header word(s), values)
+                    judge(ctx, ch[off + 1], F.const(0), f"{tag}: column header's second field is 0 (marks a sparse layout)", run.colhdr.node)
+                    if run.strhdr is None or run.r0 is None:
+                        ctx.error(f"{tag}: string header record", fn)
+                        continue
+                    r0, r1 = run.r0, run.r1
+                    Lw = 2 * r1 * mult
+                    sh = run.strhdr_vals()
+                    if layout == "nonbigmat":
+                        ok = len(sh) == 1
+                        ctx.check(ok, f"{tag}: one header word per string", run.strhdr.node, None if ok else repr(sh)[:200])
+                        if not ok:
+                            continue
+                        judge(ctx, sh[0], (r0 + 1) + (Lw + 1) * BASE, f"{tag}: string header IS = (first row + 1) + (L + 1) * 2^16 with L = 2 * length * multiplier words",
+                              run.strhdr.node)
+                        hwords = 1
+                    else:
+                        ok = len(sh) == 2
+                        ctx.check(ok, f"{tag}: two header words per string", run.strhdr.node, None if ok else repr(sh)[:200])
+                        if not ok:
+                            continue
+                        judge(ctx, (sh[0], sh[1]), (Lw + 1, r0 + 1), f"{tag}: string header is (L + 1, first row + 1) with L = 2 * length * multiplier words", run.strhdr.node)
+                        hwords = 2
+                    if not run.binary:
+                        w = [const_int(f.width) if f.width is not None else None for f in run.strhdr.ints]
+                        ok = all(x is not None for x in w) and (hwords == 1 or w == [8, 8])
+                        ctx.check(ok, f"{tag}: string header fields have constant widths" + (" (8, 8)" if hwords == 2 else ""), run.strhdr.node, None if ok else w)
+                    if run.binary:
+                        d = run.data
+                        ok = d is not None and len(d.items) == 1 and d.items[0].code == "d"
+                        ctx.check(ok, f"{tag}: the string's values are packed as doubles", d.node if d is not None else run.strhdr.node)
+                        if not ok:
+                            continue
+                        judge(ctx, d.items[0].count, r1 * mult, f"{tag}: length * multiplier doubles are packed per string (the L // 2 the header announces)", d.node)
+                        judge(ctx, ev_len(run, d.items[0].value), r1 * mult, f"{tag}: the struct format counts exactly the reals of the string it packs", d.node)
+                        arr = d.items[0].value
+                    else:
+                        dl = [f for l in run.data for f in l.txt.fields()]
+                        arr = data_base(dl[0].v) if dl else None
+                        if arr is not None:
+                            judge(ctx, ev_len(run, arr), r1 * mult, f"{tag}: the printed string holds length * multiplier reals (the L // 2 the header announces)", run.strhdr.node)
+                    # declared word count = what the strings occupy = what the reader subtracts
+                    per = F.const(hwords) + Lw
+                    ns, tot = ns_and_sum(run)
+                    nw = ch[off + 2]
+                    if ns is None:
+                        ctx.error(f"{tag}: declared nwords", run.colhdr.node, repr(nw)[:300])
+                    else:
+                        want = F.const(hwords) * ns + 2 * mult * tot
+                        judge(ctx, nw, want, f"{tag}: declared nwords = {hwords} header word(s) per string + 2 words per double", run.colhdr.node)
+                    if run.binary:
+                        judge(ctx, ch[0], (3 + nw) * 4, f"{tag}: record length = (3 header words + nwords) * 4 bytes", run.colhdr.node)
+                        tr = run.coltrail
+                        judge(ctx, tr.vals()[0] if tr is not None and len(tr.items) == 1 else None, ch[0], f"{tag}: the record ends with the same record length",
+                              tr.node if tr else run.colhdr.node)
+                        hw, dw = string_words(run)
+                        judge(ctx, hw + dw, per, f"{tag}: a string occupies L + {hwords} words ({hwords} header + 2 per double)", run.strhdr.node)
+                    # ---- reader
+                    if lr.put is None:
+                        if bad:
+                            ctx.fail(f"{rdfn.name} <- {tag}: decodes the string header the writer produces", rdfn, bad[0], key=f"C04-R3|{rdq}|decode")
+                        else:
+                            ctx.error(f"{rdfn.name} <- {tag}: store call", rdfn, repr([(ast.unparse(getattr(n, 'test', n))[:40]) for n, _v, _q in lr.W.undecided[:3]]))
+                        continue
+                    pa = lr.put[1]
+                    judge(ctx, pa[1], r0, f"{rdfn.name} <- {tag}: decode(encode) recovers the first row of the string (0-based)", lr.put[3], key=f"C04-R3|{rdq}|decode")
+                    judge(ctx, pa[2], run.col, f"{rdfn.name} <- {tag}: the string goes to the announced column (0-based)", lr.put[3])
+                    if run.binary:
+                        judge(ctx, unseq(pa[3]), arr, f"{rdfn.name} <- {tag}: reads length * multiplier doubles (what the writer packed)", lr.put[3])
+                    else:
+                        judge(ctx, pa[4], r1 * mult, f"{rdfn.name} <- {tag}: reads L // 2 = length * multiplier reals (what the writer printed)", lr.put[3])
+                    # consumption: the inner loop's counter drops by the words of the string
+                    inner = [(n, b, a) for n, b, a, _q in lr.W.whiles if is_rat(b) and is_rat(a) and depends_any(b, nw) and n is not None]
+                    dec = None
+                    for n, b, a in inner:
+                        ub, ua = unfn(b), unfn(a)
+                        if ub and ua and ub[0] == ua[0] and ub[0].startswith("cmp:") and same(ub[1][1], ua[1][1]) and same(ub[1][0], nw):
+                            dec = ub[1][0] - ua[1][0]
+                            node = n
+                    if dec is None:
+                        ctx.error(f"{rdfn.name} <- {tag}: word counter of the string loop", rdfn, repr(inner)[:300])
+                    else:
+                        judge(ctx, dec, per, f"{rdfn.name} <- {tag}: each string consumes L + {hwords} words of the column's word count", node)
+                # ---- both: the sentinel column and the loop that stops at it
+                sv = None
+                if run.sentinel is not None:
+                    sv = run.sentinel.vals() if run.binary else [f.v for f in run.sentinel.ints]
+                want = [F.const(20), S.COLS + 1, F.const(1), F.const(2)] if run.binary else [S.COLS + 1, F.const(1), F.const(1)]
+                ok = sv is not None and len(sv) == len(want) and all(same(x, y) for x, y in zip(sv, want))
+                if ok and run.binary:
+                    ok = run.sent_data is not None and len(run.sent_data.items) == 1 and run.sent_data.items[0].code == "d" and not run.sent_data.items[0].run \
+                        and run.sent_trail is not None and len(run.sent_trail.items) == 1 and const_int(run.sent_trail.items[0].value) == 20
+                elif ok:
+                    ok = run.sent_data is not None and len(run.sent_data.txt.fields()) == 1
+                ctx.check(ok, f"{tag}: terminates the matrix with the sentinel column cols + 1 holding one value", run.sentinel.node if run.sentinel is not None else fn,
+                          None if ok else repr(sv)[:200])
+                lp = lr.loops(run.col)
+                if not lp:
+                    if bad:
+                        ctx.fail(f"{rdfn.name} <- {tag}: reads columns until the sentinel", rdfn, bad[0])
+                    else:
+                        ctx.error(f"{rdfn.name} <- {tag}: column loop", rdfn)
+                else:
+                    n, b, a = lp[0]
+                    t0 = lr.ev.truth(b)
+                    t1 = lr.ev.truth(a) if a is not None else None
+                    ok = t0 is True and t1 is False
+                    if is_bad(a) or is_bad(b):
+                        ctx.fail(f"{rdfn.name} <- {tag}: reads columns until the sentinel (continues for a column below cols, stops at cols + 1)", n, (a if is_bad(a) else b).why)
+                    else:
+                        ctx.check(ok, f"{rdfn.name} <- {tag}: reads columns until the sentinel (continues for a column below cols, stops at cols + 1)", n,
+                                  None if ok else {"test for a data column": repr(b)[:120], "test after the sentinel header": repr(a)[:120]})
+                ok = not lr.left and not bad
+                ctx.check(ok, f"{'_loadop4_' + enc} <- {tag}: the loader consumes exactly the records the writer emitted (column, string, record marks, sentinel)",
+                          ctx.src.func(OP4, "OP4._loadop4_" + enc), None if ok else {"not consumed": repr(lr.left)[:300], "misread": bad[:2]})
 
-        def sub(node, ev):
-            t = utext(node)
-            if t == "ind.shape[0]":
-                return ns
-            if t == "ind[:,1]":
-                return S
-            return NotImplemented
 
-        def call(node, ev):
-            if dotted(node.func) == "sum" and node.args:
-                return ev.ev(node.args[0])
-            if (dotted(node.func) or "").endswith("write") or (dotted(node.func) or "").endswith("pack"):
-                return F.const(0)
-            return NotImplemented
-
-        ev = Evaluator(env={"multiplier": mult}, src=ctx.src, subscript=sub, call=call)
-        for st in fn.body:
-            if isinstance(st, ast.Assign):
-                ev.stmt(st)
-        nw = ev.env.get("nwords")
-        ok = nw is not None and not is_unknown(nw) and nw.equals(per_string * ns + 2 * S * mult)
-        ctx.check(ok, f"{q.split('.')[1]}: declared nwords = {per_string} header word(s) per string + 2 words per double = what the reader subtracts", fn,
-                  None if ok else repr(nw))
-        if "binary" in q:
-            rl = ev.env.get("reclen")
-            ok = rl is not None and not is_unknown(rl) and nw is not None and rl.equals((3 + nw) * 4)
-            ctx.check(ok, f"{q.split('.')[1]}: record length = (3 header words + nwords) * 4 bytes", fn, None if ok else repr(rl))
-            packs = [c for c in ast.walk(fn) if isinstance(c, ast.Call) and isinstance(c.func, ast.Attribute) and c.func.attr == "pack"]
-            ok = len(packs) == 1 and [utext(a) for a in packs[0].args] == ["reclen", "c+1", "0", "nwords"]
-            ctx.check(ok, f"{q.split('.')[1]}: column header is (reclen, column + 1, 0, nwords)", fn)
-        else:
-            wr = [n for n in ast.walk(fn) if isinstance(n, ast.JoinedStr) and not isinstance(parent(n), ast.FormattedValue)]
-            ok = len(wr) == 1 and ast.unparse(wr[0]).replace(" ", "") in ("f'{c+1:8}{0:8}{nwords:8}\\n'",)
-            ctx.check(ok, f"{q.split('.')[1]}: column header is (column + 1, 0, nwords) in three 8-wide fields", fn)
-    # ---- dense column headers
-    for q in ("OP4._write_ascii._write_col_data",):
-        fn = M.func(ctx, q)
-        wr = [n for n in ast.walk(fn) if isinstance(n, ast.JoinedStr) and not isinstance(parent(n), ast.FormattedValue)]
-        ok = bool(wr) and ast.unparse(wr[0]).replace(" ", "") == "f'{c+1:8}{s+1:8}{elems:8}\\n'"
-        ctx.check(ok, "_write_ascii: dense column header is (column + 1, first row + 1, number of values)", fn)
-    fn = M.func(ctx, "OP4._write_binary._write_col_data")
-    t = utext(fn)
-    ok = "reclen=3*4+elems*8" in t and "colHeader.pack(reclen,c+1,s+1,2*elems)" in t and "colTrailer.pack(reclen)" in t
-    ctx.check(ok, "_write_binary: dense record = (reclen | column + 1, first row + 1, 2 * values | doubles | reclen), reclen = 12 + 8 * values", fn)
-    for q in ("OP4._rd_dense_ascii", "OP4._rd_dense_binary"):
-        fn = M.func(ctx, q)
-        t = utext(fn)
-        ok = "r-=1" in t and ("c=int(line[c_slice])-1" in t or "c-=1" in t)
-        ctx.check(ok, f"{q.split('.')[1]}: converts the 1-based column and first row back to 0-based", fn)
-    # the end-of-matrix sentinel column (cols + 1) with one dummy value
-    for q in ("OP4._write_ascii", "OP4._write_ascii_sparse", "OP4._write_binary", "OP4._write_binary_sparse"):
-        fn = M.func(ctx, q)
-        t = utext(fn)
-        ok = ("f'{cols+1:8}{1:8}{1:8}\\n'" in t) if "ascii" in q else ("colHeader.pack(reclen,cols+1,1,2)" in t and "reclen=3*4+8" in t)
-        ctx.check(ok, f"{q.split('.')[1]}: terminates the matrix with the sentinel column cols + 1", fn)
-    for q in ("OP4._rd_dense_ascii", "OP4._rd_bigmat_ascii", "OP4._rd_nonbigmat_ascii", "OP4._rd_dense_binary", "OP4._rd_bigmat_binary",
-              "OP4._rd_nonbigmat_binary"):
-        fn = M.func(ctx, q)
-        loops = [n for n in fn.body if isinstance(n, ast.While)]
-        ok = bool(loops) and ast.unparse(loops[0].test).replace(" ", "") == "c<cols"
-        ctx.check(ok, f"{q.split('.')[1]}: reads columns until the sentinel (c < cols)", fn)
+def depends_any(v, w):
+    """does value v mention one of the atoms of w"""
+    if not is_rat(v) or not is_rat(w):
+        return False
+    for a in w.n.atoms():
+        if v.n.depends_on(a) or v.d.depends_on(a):
+            return True
+    return False
 
 
-def _resolve_floordiv(r):
-    """a floordiv(x, 2) atom with x an even polynomial -> x/2 ; returns None if unresolved"""
-    if r is None or is_unknown(r):
+def unseq(v):
+    """(seq(x),) / seq(x) -> x"""
+    if isinstance(v, tuple) and len(v) == 1:
+        v = v[0]
+    u = unfn(v) if is_rat(v) else None
+    if u and u[0] == "seq" and u[1]:
+        return u[1][0]
+    return v
+
+
+def data_base(v):
+    """idx(array, i) -> array"""
+    u = unfn(v) if is_rat(v) else None
+    if u and u[0] == "idx" and len(u[1]) == 2:
+        return u[1][0]
+    return None
+
+
+def ev_len(run, arr):
+    if not is_rat(arr):
         return None
-    r = need(r)
-    for a in list(r.n.atoms()):
-        d = F.atom_desc(a)
-        if d[0] == "fn" and d[1] == "floordiv":
-            num = F.Rat(F._poly_from_key(d[2][0][1]), F._poly_from_key(d[2][0][2]))
-            den = F.Rat(F._poly_from_key(d[2][1][1]), F._poly_from_key(d[2][1][2]))
-            if not den.is_const():
-                return None
-            q = num / den
-            if all(v.denominator == 1 for v in q.n.scale(1 / q.d.const_value()).t.values()):
-                return r.subs({}) if False else _subs_atom(r, a, q)
+    return run.ev.len_of(arr)
+
+
+def slice_start(arr):
+    """first row of the rows an array value holds: the lower bound of the row slice it was cut with, or the offset of the scatter that fills it"""
+    seen = 0
+    v = arr
+    while seen < 12 and is_rat(v):
+        seen += 1
+        u = unfn(v)
+        if not u:
             return None
-    return r
+        name, a = u
+        if name in ("asreal", "call:.ravel", "call:np.asarray", "call:np.array", "call:.copy") and a:
+            v = a[0]
+            continue
+        if name == "idx" and len(a) == 2:
+            us = unfn(a[1])
+            if us and us[0] == "slice":
+                lo = us[1][0]
+                return F.const(0) if sym_name(lo) == "None" else lo
+            return None
+        if name == "upd" and len(a) == 3:
+            # vec[rows - s] = values : the scatter index is (row - first row)
+            ix = a[1]
+            if is_rat(ix) and ix.d.is_const():
+                neg = [(m, c) for m, c in ix.n.t.items() if c < 0]
+                if len(neg) == 1 and len(ix.n.t) == 2:
+                    m, c = neg[0]
+                    return F.Rat(F.Poly({m: -c})) / ix.d.const_value()
+            return None
+        return None
+    return None
 
 
-def _subs_atom(r, a, val):
-    tmp = F.sym("__tmp__")
-    n = F.Poly({tuple((F._intern(("s", "__tmp__")) if x == a else x, e) for x, e in m): c for m, c in r.n.t.items()})
-    d = F.Poly({tuple((F._intern(("s", "__tmp__")) if x == a else x, e) for x, e in m): c for m, c in r.d.t.items()})
-    return F.Rat(n, d).subs({"__tmp__": val})
+def ns_and_sum(run):
+    """(number of strings, sum of string lengths) of the column, as the values the loop over strings runs over"""
+    for fr in reversed(run.strhdr.frames):
+        if fr.kind == "for" and isinstance(fr.elems, tuple) and len(fr.elems) == 2:
+            it = fr.iterable
+            if is_rat(it):
+                sl = F.fn("slice", S.NONE, S.NONE, S.NONE)
+                return F.fn("idx", F.fn("attr:shape", it), F.const(0)), F.fn("call:sum", F.fn("idx", it, F.fn("tuple", sl, F.const(1))))
+    return None, None
+
+
+# ---------------------------------------------------------------------------------------------------------------------- R4
+def boundary_sites(ctx, L):
+    """every comparison (evaluated anywhere in the writer / loader / skipper runs) between a row count and self._rows4bigmat"""
+    sites = {}
+    worlds = []
+    for enc in ENCS:
+        for layout in LAYOUTS:
+            for kind, cplx in SCEN:
+                for run in L.writer(enc, layout, kind, cplx):
+                    worlds.append(run.W)
+                    if not run.raised:
+                        worlds.append(L.load(run).W)
+    # the skipper, evaluated on its own parameters
+    W = S.base_world(ctx, L.state, rows=(None, None), split_rows=False)
+    W.opaque |= {"_skipop4_binary"}
+    try:
+        S.run_method(W, "self._skipop4_ascii", {"perline": F.sym("perline"), "rows": F.sym("rows"), "cols": F.sym("cols"), "mtype": F.sym("mtype")})
+    except S.NeedSplit:
+        pass
+    worlds.append(W)
+    b4 = atom_id(S.B4)
+    for W in worlds:
+        for node, op, a, b, q in W.compares:
+            if not (is_rat(a) and is_rat(b)):
+                continue
+            d = a - b
+            if not d.d.is_const() or b4 not in d.n.atoms():
+                continue
+            sites.setdefault(id(node), (node, op, a, b, q))
+    return list(sites.values())
 
 
 def r4_ranges_and_dispatch(ctx):
-    rows4, st = _const_attr(ctx, "_rows4bigmat")
-    ok = rows4 == 1 << M.SHIFT
-    ctx.check(ok, "_rows4bigmat == 2^16, the shift used to pack the nonbigmat string header", st, rows4)
-    # every comparison against _rows4bigmat uses the same inclusive boundary
-    m = ctx.src.mod(OP4)
-    comps = []
-    for q, fn in sorted(m.funcs.items()):
-        for n in walk_no_nested(fn):
-            if isinstance(n, ast.Compare) and len(n.ops) == 1 and "self._rows4bigmat" in ast.unparse(n):
-                comps.append((q, n))
-    for q, n in comps:
-        t = utext(n)
-        ok = t in ("rows>=self._rows4bigmat", "self._rows4bigmat<=rows")
-        ctx.check(ok, f"{q.split('.')[-1]}: layout switches to bigmat at rows >= 65536 (writers, loaders and skipper must agree on the boundary)", n,
-                  None if ok else f"`{t}`: a matrix with exactly 65536 rows would be written in one layout and read in the other",
-                  key=f"C04-R4|{q}|bigmat boundary {t}")
-    ctx.check(len(comps) >= 4, f"bigmat boundary rule bound to {len(comps)} comparisons", OP4 + ":1", [q for q, _ in comps], nontrivial=False)
-    # nonbigmat writers run only below the boundary
-    for q in ("OP4._write_ascii_nonbigmat", "OP4._write_binary_nonbigmat"):
-        fn = M.func(ctx, q)
-        first = [s for s in fn.body if isinstance(s, ast.If) and "self._rows4bigmat" in ast.unparse(s.test)]
-        ok = bool(first) and isinstance(first[0].body[-1], ast.Return) and "bigmat(" in ast.unparse(first[0].body[0])
-        hdr = [s for s in fn.body if "_header(" in ast.unparse(s)]
-        ok = ok and bool(hdr) and first[0].lineno < hdr[0].lineno
-        ctx.check(ok, f"{q.split('.')[1]}: delegates to the bigmat writer before writing anything when rows >= 65536", fn)
-    # packed ranges:  IS into a 4-byte signed integer
-    w = M.string_writer(ctx, "OP4._write_binary_nonbigmat._write_data_string")
-    IS = w["IS"]
-    packs = [x for x in w["written"] if x[0] == "pack"]
-    fnw = M.func(ctx, "OP4._write_binary_nonbigmat")
+    L = lab(ctx)
+    rows4 = L.rows4()
+    ctx.check(rows4 == BASE, "_rows4bigmat == 2^16, the base used to pack the nonbigmat string header", L.init_fn, rows4)
+    if rows4 is None:
+        return
+    # every comparison against _rows4bigmat puts the boundary between 65535 and 65536 rows
+    sites = boundary_sites(ctx, L)
+    nsite = 0
+    for node, op, a, b, q in sorted(sites, key=lambda s: (s[4], getattr(s[0], "lineno", 0))):
+        d = a - b
+        terms = [(m, c) for m, c in d.n.t.items() if m != ()]
+        sc = 1 / d.d.const_value()
+        b4 = atom_id(S.B4)
+        others = [(m, c) for m, c in terms if m != ((b4, 1),)]
+        cb = d.n.t.get(((b4, 1),), 0) * sc
+        if len(others) != 1 or len(others[0][0]) != 1 or others[0][0][0][1] != 1 or cb == 0:
+            continue
+        cx = others[0][1] * sc
+        if cx * cb > 0:
+            continue            # -rows against the boundary: decided by the sign, not a layout boundary
+        k = d.n.t.get((), 0) * sc
+
+        def truth(x):
+            val = cx * x + cb * rows4 + k
+            return {"Lt": val < 0, "LtE": val <= 0, "Gt": val > 0, "GtE": val >= 0, "Eq": val == 0, "NotEq": val != 0}.get(op)
+        lo, hi = truth(rows4 - 1), truth(rows4)
+        ok = lo is not None and lo != hi
+        nsite += 1
+        fname = q.split(".")[-1] if q else "?"
+        ctx.check(ok, f"{fname}: layout switches to bigmat at rows >= {rows4} (writers, loaders and skipper must agree on the boundary)", node,
+                  None if ok else f"`{ast.unparse(node)[:80]}`: a matrix with exactly {rows4} rows would be written in one layout and read in the other",
+                  key=f"C04-R4|{q}|bigmat boundary")
+    ctx.check(nsite >= 4, f"bigmat boundary rule bound to {nsite} comparisons", OP4 + ":1", nsite, nontrivial=False)
+    # nonbigmat writers emit the bigmat layout, and nothing else, from 65536 rows on
+    for enc in ENCS:
+        fn = wfn(ctx, enc, "nonbigmat")
+        for kind, cplx in SCEN[:1]:
+            big = [r for r in L.writer(enc, "nonbigmat", kind, cplx) if not r.raised and r.rows[0] >= rows4]
+            refs = [r for r in L.writer(enc, "bigmat", kind, cplx) if not r.raised]
+            ref = refs[0] if refs else None
+            small = [r for r in L.writer(enc, "nonbigmat", kind, cplx) if not r.raised and r.rows[1] is not None and r.rows[1] < rows4]
+            ok = bool(big) and ref is not None
+            detail = None
+            for r in big:
+                if not ok:
+                    break
+                cover = [x for x in refs if (x.rows[0] or 0) <= r.rows[0] and (x.rows[1] is None or (r.rows[1] is not None and r.rows[1] <= x.rows[1]))]
+                if not cover:
+                    ok = False
+                    detail = {"regime": r.regime(), "bigmat writer": "no regime of the bigmat writer covers it"}
+                    break
+                ta, tb = trace_of(r), trace_of(cover[0])
+                if len(ta) != len(tb) or not all(same(x, y) for x, y in zip(ta, tb)):
+                    ok = False
+                    detail = {"regime": r.regime(), "emitted": repr(ta)[:200], "bigmat writer": repr(tb)[:200]}
+            ctx.check(ok, f"{fn.name}: from {rows4} rows on it emits exactly what the bigmat writer emits (delegation before anything is written)", fn, detail)
+            ok = bool(small) and all(r.strhdr is not None and len(r.strhdr_vals()) == 1 for r in small)
+            ctx.check(ok, f"{fn.name}: below {rows4} rows the strings carry the one-word packed header", fn)
+    # packed ranges: IS into the struct code it is packed with
+    worst = None
     code = None
-    if packs:
-        sname = packs[0][2]
-        # the struct object reaching that parameter: positional argument of _write_binary_sparse
-        params = [a.arg for a in w["fn"].args.args]
-        pidx = params.index(sname) if sname in params else None
-        call = [c for c in ast.walk(fnw) if isinstance(c, ast.Call) and dotted(c.func) == "OP4._write_binary_sparse"]
-        if call and pidx is not None:
-            sparse = M.func(ctx, "OP4._write_binary_sparse")
-            sp_params = [a.arg for a in sparse.args.args]
-            inner = [c for c in ast.walk(sparse) if isinstance(c, ast.Call) and dotted(c.func) == "_write_data_string"]
-            if inner:
-                arg = ast.unparse(inner[0].args[pidx])
-                if arg in sp_params:
-                    actual = ast.unparse(call[0].args[sp_params.index(arg)])
-                    for st in walk_no_nested(fnw):
-                        if isinstance(st, ast.Assign) and ast.unparse(st.targets[0]) == actual and "struct.Struct" in ast.unparse(st.value):
-                            mm = re.search(r"'(\d*)([iqIQ])'", ast.unparse(st.value))
-                            if mm:
-                                code = mm.group(2)
-    if IS is None or is_unknown(IS) or code is None:
-        ctx.error("_write_binary_nonbigmat: packed IS / struct code", fnw, f"{IS} {code}")
+    node = None
+    for kind, cplx in SCEN:
+        for run in L.writer("binary", "nonbigmat", kind, cplx):
+            if run.raised or run.strhdr is None or run.r0 is None or len(run.strhdr.items) != 1 or run.rows[1] is None or run.rows[1] >= rows4:
+                continue
+            it = run.strhdr.items[0]
+            IS = it.value
+            # domain: 0 <= r0 <= rows - 2 when a string of r1 rows follows ... the bound used: r0 <= rows4 - 2, r1 <= rows4 - 1
+            try:
+                hi = IS.subs({sym_name(run.r0): rows4 - 2, sym_name(run.r1): rows4 - 1})
+            except Unsupported:
+                continue
+            if hi.is_const() and (worst is None or hi.const_value() > worst):
+                worst, code, node = int(hi.const_value()), it.code, run.strhdr.node
+    fnw = wfn(ctx, "binary", "nonbigmat")
+    if worst is None or code not in STRUCT_RANGE:
+        ctx.error("_write_binary_nonbigmat: packed IS / struct code", fnw, f"{worst} {code}")
     else:
-        # domain: 0 <= r0 <= rows - 1, 1 <= r1 <= rows, rows <= 65535 (guard above), multiplier in {1, 2}
-        hi = IS.subs({"r0": rows4 - 2, "r1": rows4 - 1, "mult": 2})
-        hi = int(hi.const_value())
-        lo_ok, hi_ok = STRUCT_RANGE[code]
-        ok = hi <= hi_ok
+        ok = worst <= STRUCT_RANGE[code][1]
         ctx.check(ok, f"_write_binary_nonbigmat: the packed header IS fits the struct code '{code}' for every string the layout allows "
-                      "(any length up to rows < 65536)", packs[0][3],
-                  None if ok else {"max IS": hi, "limit": hi_ok,
+                      "(any length up to rows < 65536)", node,
+                  None if ok else {"max IS": worst, "limit": STRUCT_RANGE[code][1],
                                    "witness": "a 20000 x 1 dense column with 16384 leading non-zeros, sparse='nonbigmat': L + 1 = 32769 -> IS >= 2^31 -> struct.error; "
                                               "Nastran splits such strings, the writer does not"},
-                  key="C04-R4|OP4._write_binary_nonbigmat._write_data_string|IS overflows 'i'")
-    # ascii nonbigmat: the IS line is parsed whole by int(), any width works; writer uses 11 columns
-    w2 = M.string_writer(ctx, "OP4._write_ascii_nonbigmat._write_data_string")
-    txt = [x for x in w2["written"] if x[0] == "text"]
-    ok = bool(txt) and txt[0][1][0][1] == "11"
-    ctx.check(ok, "_write_ascii_nonbigmat: IS is written alone on its line (11 columns) and parsed with int(line)", w2["fn"], nontrivial=False)
-    # dimension limits guarded before any header is written
-    gi = M.func(ctx, "OP4._get_header_info")
-    t = utext(gi)
-    ok = "rows>99999999orcols>99999998" in t and "rows>2147483647orcols>2147483647" in t
-    ctx.check(ok, "_get_header_info: refuses dimensions that do not fit the 8/16-digit ASCII or 32-bit binary header fields", gi)
+                  key="C04-R4|OP4._write_binary_nonbigmat|IS overflows 'i'")
+    # ascii nonbigmat: IS is alone on its line and read back as a whole line
+    run = first_regime(L.writer("ascii", "nonbigmat"))
+    ok = run is not None and run.strhdr is not None and len(run.strhdr.ints) == 1 and len(run.strhdr.txt.fields()) == 1
+    ctx.check(ok, "_write_ascii_nonbigmat: IS is written alone on its line and parsed with int(line)", wfn(ctx, "ascii", "nonbigmat"), nontrivial=False)
+    # dimension limits: a dimension that does not fit its header field is refused before anything is written
+    gi = ctx.src.func(OP4, "OP4._get_header_info")
+    for enc, rmax, cmax in (("ascii", 99999999, 99999998), ("binary", 2147483647, 2147483647)):
+        res = {}
+        for label, rows, cols in (("rows at the limit", (rmax, rmax), (1, 1)), ("rows above the limit", (rmax + 1, rmax + 1), (1, 1)),
+                                  ("cols at the limit", (1, 1), (cmax, cmax)), ("cols above the limit", (1, 1), (cmax + 1, cmax + 1))):
+            W = S.base_world(ctx, L.state, rows=rows, cols=cols, split_rows=False)
+            env = {"f": F.sym("f"), "name": F.sym("name"), "matrix": W.matrix, "digits": F.sym("digits"), "endian": F.sym("endian"), "form": F.sym("form")}
+            try:
+                S.run_method(W, "self." + WRITERS[(enc, "dense")], env)
+                res[label] = (bool(W.raises), len(W.emits), [q for _n, q in W.raises])
+            except S.NeedSplit as e:
+                res[label] = ("undecided", str(e), [])
+        ok = res["rows above the limit"][0] is True and res["cols above the limit"][0] is True and res["rows above the limit"][1] == 0 and res["cols above the limit"][1] == 0
+        ctx.check(ok, f"{enc} writers: dimensions above ({rmax}, {cmax}) do not fit the {'8/16-digit header fields' if enc == 'ascii' else '32-bit header fields'} "
+                      "and are refused before anything is written", gi, None if ok else res)
+        ok = res["rows at the limit"][0] is False and res["cols at the limit"][0] is False
+        ctx.check(ok, f"{enc} writers: dimensions up to ({rmax}, {cmax}) are accepted", gi, None if ok else res, nontrivial=False)
 
 
+def trace_of(run):
+    """the emitted records of a run as comparable values"""
+    out = []
+    if run.binary:
+        for it in run.items:
+            out.append(it.value if is_rat(it.value) else (it.value.atom() if isinstance(it.value, Txt) else F.sym("?")))
+            out.append(it.count)
+    else:
+        for l in run.lines:
+            out.append(l.txt.atom())
+    return out
+
+
+# ---------------------------------------------------------------------------------------------------------------------- R7
 def r7_input_canonical(ctx):
+    L = lab(ctx)
+    # ---- _ensure_2d_dp, sparse arm
     fn = ctx.src.func(OP4, "_ensure_2d_dp")
-    arm = [s for s in fn.body if isinstance(s, ast.If) and "sp.issparse" in ast.unparse(s.test)]
-    if not arm:
-        raise AnchorError("_ensure_2d_dp: sparse arm")
-    t = ast.unparse(arm[0]).replace(" ", "")
-    ok = "sp.find(m)" in t or "sum_duplicates()" in t
-    ctx.check(ok, "_ensure_2d_dp: sparse input is reduced to duplicate-free (row, col, value) triplets (scipy.sparse.find sums repeated entries); "
-                  "the writers place each triplet once and dense reads would otherwise overwrite instead of accumulate", arm[0],
-              None if ok else "triplets taken without summing duplicates")
-    ok = "_ensure_dp(v)" in t or "_ensure_dp(" in t
-    ctx.check(ok, "_ensure_2d_dp: values are converted to double precision (the only types the writers emit)", arm[0])
+    W = S.World(ctx)
+    W.opaque |= S.OPAQUE
+    W.value_oracle = S.std_oracle("sparse", False, {"issparse": True})
+    ev = S.OP4Eval(fn, W, env={"m": F.sym("m")}, qual="_ensure_2d_dp")
+    ev.run(fn.body)
+    ret = ev.returns[-1][0] if ev.returns else None
+    if not isinstance(ret, tuple) or len(ret) != 4 or any(is_unknown(x) for x in ret):
+        ctx.error("_ensure_2d_dp: the sparse arm returns (matrix, rows, cols, values)", fn, repr(ret)[:300])
+    else:
+        trip = ret[1:]
+        vals = trip[2]
+        u = unfn(vals)
+        inner = u[1][0] if u and u[0] in ("call:_ensure_dp",) and u[1] else None
+        ok = inner is not None
+        ctx.check(ok, "_ensure_2d_dp: values are converted to double precision (the only types the writers emit)", ev.returns[-1][1], None if ok else repr(vals)[:200])
+        src = [trip[0], trip[1], inner if inner is not None else vals]
+        verdict, why = triplet_source(src, W)
+        if verdict is None:
+            ctx.error("_ensure_2d_dp: source of the (row, col, value) triplets", ev.returns[-1][1], why)
+        else:
+            ctx.check(verdict, "_ensure_2d_dp: sparse input is reduced to duplicate-free (row, col, value) triplets (scipy.sparse.find sums repeated entries); "
+                               "the writers place each triplet once and dense reads would otherwise overwrite instead of accumulate", ev.returns[-1][1],
+                      None if verdict else why)
+        ok = same(ret[0], F.sym("m"))
+        ctx.check(ok, "_ensure_2d_dp: the tuple carries the matrix itself first (its shape sizes the header)", ev.returns[-1][1], nontrivial=False)
+    # ---- _ensure_dp
     dp = ctx.src.func(OP4, "_ensure_dp")
-    t = utext(dp)
-    ok = "m.astype(np.complex128)" in t and "m.astype(np.float64)" in t and "np.iscomplexobj(m)" in t
-    ctx.check(ok, "_ensure_dp: complex -> complex128, everything else -> float64", dp)
-    gi = M.func(ctx, "OP4._get_header_info")
-    t = utext(gi)
-    ok = "mtype=4" in t and "multiplier=2" in t and "mtype=2" in t and "multiplier=1" in t
-    ctx.check(ok, "_get_header_info: type 4 / two doubles per entry for complex, type 2 / one double for real", gi)
-    # write dispatch: every named layout maps to its writer, for both encodings
-    wr = M.func(ctx, "OP4.write")
-    t = utext(wr)
-    pairs = [("binary", "dense", "self._write_binary"), ("binary", "bigmat", "self._write_binary_bigmat"), ("binary", "nonbigmat", "self._write_binary_nonbigmat"),
-             ("ascii", "dense", "self._write_ascii"), ("ascii", "bigmat", "self._write_ascii_bigmat"), ("ascii", "nonbigmat", "self._write_ascii_nonbigmat")]
-    for enc, lay, f_ in pairs:
-        ok = f"sparse=='{lay}':wrtfunc={f_}" in t.replace("\n", "").replace("if", "").replace("el", "") or f"sparse=='{lay}':\nwrtfunc={f_}\n" in t \
-            or re.search(rf"sparse=='{lay}':\s*wrtfunc={re.escape(f_)}\b", t) is not None
-        ctx.check(ok, f"write: sparse='{lay}' ({enc}) selects {f_.split('.')[-1]}", wr)
+    for cplx in (True, False):
+        for already in (True, False):
+            target = "np.complex128" if cplx else "np.float64"
+
+            def oracle(v, e, cplx=cplx, already=already, target=target):
+                u = unfn(v)
+                if not u:
+                    return None
+                if u[0] == "call:np.iscomplexobj":
+                    return cplx
+                if u[0] in ("cmp:Eq", "cmp:NotEq") and len(u[1]) == 2:
+                    a, b = u[1]
+                    for x, y in ((a, b), (b, a)):
+                        ux = unfn(x)
+                        if ux and ux[0] == "attr:dtype" and sym_name(y) in ("np.complex128", "np.float64", "complex", "float"):
+                            is_t = sym_name(y) in (target, "complex" if cplx else "float")
+                            eq = already and is_t
+                            return eq if u[0] == "cmp:Eq" else not eq
+                return None
+            W = S.World(ctx)
+            W.value_oracle = oracle
+            ev = S.OP4Eval(dp, W, env={"m": F.sym("m")}, qual="_ensure_dp")
+            ev.run(dp.body)
+            ret = ev.returns[-1][0] if ev.returns else None
+            m = F.sym("m")
+            if already:
+                want = [m]
+            else:
+                want = [F.fn("call:.astype", m, F.sym(target)), F.fn("call:.astype", m, F.sym("complex" if cplx else "float")),
+                        F.fn("call:.astype", m, F.fn("kw:dtype", F.sym(target)))]
+            ok = ret is not None and not is_unknown(ret) and any(same(ret, w) for w in want)
+            if ret is None or (is_unknown(ret) and not is_bad(ret)):
+                ctx.error(f"_ensure_dp: {'complex' if cplx else 'real'} input, {'already' if already else 'not yet'} double precision", dp, repr(ret))
+            else:
+                ctx.check(ok, f"_ensure_dp: {'complex' if cplx else 'real'} input {'that already is' if already else 'that is not'} "
+                              f"{'complex128' if cplx else 'float64'} -> {'returned as is' if already else 'converted to ' + target.split('.')[1]}", dp,
+                          None if ok else repr(ret)[:200])
+    # ---- _get_header_info: type and multiplier
+    gi = ctx.src.func(OP4, "OP4._get_header_info")
+    for cplx in (True, False):
+        W = S.base_world(ctx, L.state, "ndarray", cplx, rows=(1, 100), split_rows=False)
+        ev = S.run_method(W, "OP4._get_header_info", {"matrix": W.matrix, "form": F.sym("form"), "is_ascii": S.FALSE})
+        ret = ev.returns[-1][0] if ev.returns else None
+        got = (ret[3], ret[4]) if isinstance(ret, tuple) and len(ret) == 6 else None
+        judge(ctx, got, (F.const(4 if cplx else 2), F.const(2 if cplx else 1)),
+              f"_get_header_info: {'type 4 / two doubles per entry for complex' if cplx else 'type 2 / one double per entry for real'} input", gi)
+    # ---- write dispatch: every named layout maps to its writer, for both encodings
+    wr = ctx.src.func(OP4, "OP4.write")
+    for enc in ENCS:
+        for layout in LAYOUTS:
+            target = WRITERS[(enc, layout)]
+            W = S.World(ctx)
+            W.opaque |= S.OPAQUE | set(WRITERS.values()) | {"_ensure_2d_dp"}
+            truths = {"binary": enc == "binary", "=sparse": layout, "=endian": "<", "isinstance:Mapping": False}
+            W.value_oracle = S.std_oracle("ndarray", True, truths)
+            W.none_syms = set()
+            env = {k: F.sym(k) for k in ("filename", "names", "matrices", "binary", "digits", "endian", "sparse", "forms")}
+            fnw = W.table["self.write"]
+            ev = S.OP4Eval(fnw, W, env=env, qual="OP4.write")
+            ev.run(fnw.body)
+            called = []
+            for c in W.calls:
+                nm = c[0] if isinstance(c[0], str) else sym_name(c[0])
+                if nm and nm.split(".")[-1] in WRITERS.values() and nm.split(".")[0] in ("self", "OP4", ""):
+                    called.append(nm.split(".")[-1])
+            called = [x for x in called]
+            ok = called == [target]
+            ctx.check(ok, f"write: sparse='{layout}' ({enc}) selects {target}", wr, None if ok else {"called": called})
 
 
+def triplet_source(src, W):
+    """are the three triplet components taken from a source that sums repeated (row, col) entries?  -> (True / False / None, explanation)"""
+    bases = []
+    for k, v in enumerate(src):
+        u = unfn(v)
+        # strip masks:  x[nz]
+        base = None
+        depth = 0
+        while u and depth < 6:
+            depth += 1
+            if u[0] == "idx" and len(u[1]) == 2:
+                a, ix = u[1]
+                ua = unfn(a)
+                if ua and ua[0] in ("call:sp.find", "call:scipy.sparse.find", "call:find") and const_int(ix) == k:
+                    base = ("find", ua[1][0] if ua[1] else None)
+                    break
+                u = ua
+                continue
+            if u[0].startswith("attr:"):
+                base = ("attr:" + u[0][5:], u[1][0])
+                break
+            break
+        bases.append(base)
+    if all(b is not None and b[0] == "find" for b in bases):
+        return True, None
+    if all(b is not None and b[0].startswith("attr:") for b in bases):
+        objs = [b[1] for b in bases]
+        # the object the attributes are read from: was .sum_duplicates() called on it before?
+        summed = any(c[0] == ".sum_duplicates" and c[1] and any(is_rat(o) and is_rat(c[1][0]) and o.equals(c[1][0]) for o in objs) for c in W.calls)
+        if summed:
+            return True, None
+        uo = unfn(objs[0])
+        if uo and uo[0] in ("call:.tocoo", "call:sp.coo_matrix", "call:.tocsr", "call:.tocsc", "call:.asformat"):
+            return False, f"triplets taken from `{uo[0][5:]}` without summing duplicates (a COO / non-canonical CSR matrix keeps repeated entries)"
+        return None, f"triplets read from {objs[0]!r}"
+    return None, f"unrecognised triplet source {[repr(s)[:80] for s in src]}"
+
+
+# ---------------------------------------------------------------------------------------------------------------------- R8
 def r8_symmetry_test(ctx):
     """_is_symmetric (sparse arm) decides form 6 by pairing every lower-triangle entry (r, c, v) with the upper-triangle entry (c, r, v').  The test
     must therefore be invariant under transposition: swapping the roles of the row and column vectors must map each left-hand side of its
     comparisons onto the right-hand side - including the two sort orders that line the triangles up.  Decided on values (names irrelevant)."""
-    from .sem import Sem, unfn
     fn = ctx.src.func(OP4, "OP4._is_symmetric")
+    W = S.World(ctx)
+    W.opaque |= S.OPAQUE - {"_is_symmetric"}
 
-    def cond(test, ev):
-        t = utext(test)
-        if t.startswith("isinstance(m,tuple)"):
-            return True
-        if "count_nonzero" in t:
-            return False
+    def oracle(v, ev):
+        u = unfn(v)
+        if not u:
+            return None
+        if u[0] == "call:isinstance" and len(u[1]) == 2:
+            ux = unfn(u[1][0])
+            if sym_name(u[1][1]) == "tuple":
+                return bool(ux and ux[0] == "tuple")
+        if u[0] in ("cmp:Eq", "cmp:NotEq") and len(u[1]) == 2:
+            # the two triangles hold the same number of entries on the path that reaches the element-wise test
+            a, b = u[1]
+            ua, ub = unfn(a), unfn(b)
+            if ua and ub and ua[0] == ub[0] and ua[0].startswith("call:") and len(ua[1]) == len(ub[1]) == 1:
+                return u[0] == "cmp:Eq"
         return None
-
-    def sub(node, ev):
-        # r, c, v = m[1:]
-        if isinstance(node.value, ast.Name) and node.value.id == "m" and isinstance(node.slice, ast.Slice):
-            return (F.sym("r"), F.sym("c"), F.sym("v"))
-        return NotImplemented
-
-    S = Sem(ctx, fn, cond=cond, subscript=sub)
-    ret = S.ret()
-    if ret is None or is_unknown(ret) or isinstance(ret, tuple):
-        ctx.error("_is_symmetric: returned test", fn, repr(ret))
+    W.value_oracle = oracle
+    m = (F.sym("m0"), F.sym("r"), F.sym("c"), F.sym("v"))
+    ev = S.OP4Eval(fn, W, env={"m": m}, qual="OP4._is_symmetric")
+    ev.run(fn.body)
+    ret = ev.returns[-1][0] if ev.returns else None
+    rnode = ev.returns[-1][1] if ev.returns else fn
+    if ret is None or is_unknown(ret) or isinstance(ret, tuple) or not is_rat(ret):
+        ctx.error("_is_symmetric: returned test", fn, repr(ret)[:300])
         return
-    # collect the (left, right) pairs of every equality / closeness test in the returned conjunction
     pairs = []
 
     def walk(v):
@@ -459,20 +860,16 @@ def r8_symmetry_test(ctx):
         return False
 
     if not walk(ret) or len(pairs) < 3:
-        ctx.error("_is_symmetric: the sparse test is a conjunction of element-wise comparisons", S.ret_node(), repr(ret))
+        ctx.error("_is_symmetric: the sparse test is a conjunction of element-wise comparisons", rnode, repr(ret)[:300])
         return
     R, C = F.sym("r"), F.sym("c")
-    T = F.sym("__t")
-    n_ok = 0
     for kind, a, b in pairs:
-        at = a.subs({"r": T}).subs({"c": R}).subs({"__t": C})      # transposition: r <-> c
+        at = a.subs({"r": F.sym("__t")}).subs({"c": R}).subs({"__t": C})      # transposition: r <-> c
         ok = at.equals(b)
-        n_ok += ok
         ctx.check(ok, "_is_symmetric: each compared pair is mirror-symmetric - transposing (rows <-> columns) the lower-triangle side gives exactly the "
-                      "upper-triangle side, sort order included", S.ret_node(),
+                      "upper-triangle side, sort order included", rnode,
                   None if ok else {"left": repr(a)[:300], "left transposed": repr(at)[:300], "right": repr(b)[:300]},
                   key=f"C04-R8|_is_symmetric|{kind} pair not mirror-symmetric")
-    # the three compared quantities are the column, the row and the value of the entries
     kinds = set()
     for kind, a, b in pairs:
         u = unfn(a)
@@ -480,31 +877,34 @@ def r8_symmetry_test(ctx):
             base = unfn(u[1][0])
             if base and base[0] == "idx":
                 kinds.add(repr(base[1][0]))
-    ctx.check(kinds == {"r", "c", "v"}, "_is_symmetric: rows, columns and values of the two triangles are all compared", S.ret_node(), sorted(kinds))
+    ctx.check(kinds == {"r", "c", "v"}, "_is_symmetric: rows, columns and values of the two triangles are all compared", rnode, sorted(kinds))
 
 
+# ---------------------------------------------------------------------------------------------------------------------- R9
 def r9_no_byte_reinterpretation(ctx):
     """Binary files may be in either byte order: the loaders read numbers through struct formats / numpy dtypes that carry the file's byte
     order (`self._endian + ...`).  A value array obtained that way must never be *reinterpreted* (`.view(dtype)`, `np.frombuffer`, `.tobytes`
     round trips, `.byteswap`/`.newbyteorder` without the matching dtype change) on its way into the matrix: a native-dtype view of
     byte-swapped data yields garbage of the right shape.  Who-may rule over every function reachable from the binary loader; expected count 0."""
     mod = ctx.src.mod(OP4)
-    # call graph restricted to methods of OP4 (self.x / OP4.x / bare names of the class)
     meth = {q.split(".", 1)[1]: f for q, f in mod.funcs.items() if q.startswith("OP4.") and q.count(".") == 1}
+    free = {q: f for q, f in mod.funcs.items() if "." not in q and "#" not in q}
     seen, work = set(), ["_loadop4_binary"]
+    table = dict(free)
+    table.update(meth)
     while work:
         nm = work.pop()
-        if nm in seen or nm not in meth:
+        if nm in seen or nm not in table:
             continue
         seen.add(nm)
-        for c in ast.walk(meth[nm]):
+        for c in ast.walk(table[nm]):
             if isinstance(c, ast.Attribute) and isinstance(c.value, ast.Name) and c.value.id in ("self", "OP4") and c.attr in meth:
                 work.append(c.attr)
-            if isinstance(c, ast.Name) and c.id in meth:
+            if isinstance(c, ast.Name) and c.id in table:
                 work.append(c.id)
     n = 0
     for nm in sorted(seen):
-        fn = meth[nm]
+        fn = table[nm]
         for c in ast.walk(fn):
             if not isinstance(c, ast.Call):
                 continue
@@ -514,14 +914,14 @@ def r9_no_byte_reinterpretation(ctx):
                 bad = "`.view(dtype)` reinterprets the bytes in native order"
             elif isinstance(c.func, ast.Attribute) and c.func.attr in ("byteswap", "newbyteorder", "tobytes"):
                 bad = f"`.{c.func.attr}()` on values read in the file's byte order"
-            elif d in ("np.frombuffer",) and not any("endian" in ast.unparse(a) or "frm" in ast.unparse(a) or "numform" in ast.unparse(a) for a in list(c.args[1:]) + [k.value for k in c.keywords]):
-                bad = "`np.frombuffer` without the file's byte-order-qualified dtype"
+            elif d in ("np.frombuffer", "numpy.frombuffer"):
+                bad = "`np.frombuffer` on bytes read in the file's byte order"
             if bad:
                 n += 1
                 ctx.fail("binary loaders never reinterpret the bytes of values read in the file's byte order", c,
-                         f"OP4.{nm}: {bad}: `{ast.unparse(c)[:100]}` (non-native files decode to garbage of the right shape)",
-                         key=f"C04-R9|OP4.{nm}|{ast.unparse(c.func)[:40]}")
-    ctx.check(len(seen) >= 8, f"byte-reinterpretation rule scanned {len(seen)} methods reachable from _loadop4_binary", meth.get("_loadop4_binary"), sorted(seen),
+                         f"{nm}: {bad}: `{ast.unparse(c)[:100]}` (non-native files decode to garbage of the right shape)",
+                         key=f"C04-R9|{nm}|{ast.unparse(c.func)[:40]}")
+    ctx.check(len(seen) >= 8, f"byte-reinterpretation rule scanned {len(seen)} functions reachable from _loadop4_binary", meth.get("_loadop4_binary"), sorted(seen),
               nontrivial=False)
     if not n:
         ctx.ok("binary loaders never reinterpret the bytes of values read in the file's byte order (no .view(dtype) / byteswap / frombuffer on the way "
@@ -530,27 +930,31 @@ def r9_no_byte_reinterpretation(ctx):
 
 RULES = [
     ("C04-R1", r1_ascii_field, 6),
-    ("C04-R2", r2_headers, 10),
-    ("C04-R3", r3_string_headers, 38),
-    ("C04-R4", r4_ranges_and_dispatch, 10),
-    ("C04-R7", r7_input_canonical, 10),
+    ("C04-R2", r2_headers, 30),
+    ("C04-R3", r3_string_headers, 120),
+    ("C04-R4", r4_ranges_and_dispatch, 12),
+    ("C04-R7", r7_input_canonical, 14),
     ("C04-R8", r8_symmetry_test, 4),
     ("C04-R9", r9_no_byte_reinterpretation, 2),
 ]
 LEVEL = "other"
-EXPLANATION = ("Static reader/writer agreement for OUTPUT4: header column tables, string-header encode/decode inverses (symbolic, with 2^16 packing), "
-               "declared word counts vs what the readers subtract, record lengths, packing ranges over the layout's whole domain, the bigmat boundary "
-               "shared by writers/loaders/skipper, ASCII field width over all finite doubles, input canonicalisation.")
+EXPLANATION = ("Static reader/writer agreement for OUTPUT4, decided on values: every writer is evaluated on symbols for a generic matrix (generic column and "
+               "string of non-zeros, complex ndarray and real scipy.sparse input, every regime of the row count) and the matching loader is evaluated on "
+               "exactly the header / column / string records that run emitted; the rules compare what comes back with what went in, plus the declared "
+               "word counts and record lengths, packing ranges over the layout's whole domain, the bigmat boundary shared by writers / loaders / skipper, "
+               "the ASCII field width over all finite doubles and the input canonicalisation.")
 MANIFEST = {
-    "text": "Partial claim decided statically: the reader slices/unpacks exactly what the writer emits (ASCII header columns for both integer widths, binary "
+    "text": "Partial claim decided statically: the loader slices / unpacks exactly what the writer emits (ASCII header columns for both integer widths, binary "
             "header record), decode(encode(string header)) = identity for nonbigmat (2^16 packing) and bigmat layouts in ASCII and binary, declared "
             "nwords/reclen equal what readers consume, every layout switch uses the same rows >= 65536 boundary, the packed IS and the ASCII number "
             "field are checked over the whole value domain (two known findings: F1 ASCII field one character short for negative 3-digit exponents, "
             "F2 IS overflows int32 for strings >= 16384 rows), sparse input is canonicalised, and the sparse symmetry test that decides form 6 is "
-            "mirror-symmetric under transposition (sort orders included), no method reachable from the binary loader reinterprets bytes read in the "
+            "mirror-symmetric under transposition (sort orders included), no function reachable from the binary loader reinterprets bytes read in the "
             "file's byte order. Not decided: float() parsing exactness, "
             "_sparse_col_stats on arbitrary patterns, scipy.sparse behaviour.",
-    "note": "Trusted: CPython ast; verifier/e2_formula.py polynomial arithmetic with the bit-operator model of verifier/op4_model.py (<< k = * 2^k; >> k and & "
-            "(2^k - 1) resolved only when the low part is declared below 2^k: first row + 1 <= rows < 2^16 for the nonbigmat layout).",
-    "technique": "static layout extraction from f-strings / struct formats / slices and symbolic inverse check of header encode/decode; interval bound on packed values",
+    "note": "Trusted: CPython ast; verifier/e2_formula.py polynomial arithmetic with the bit-operator model of verifier/op4_model.py (<< k = * 2^k; >> k, // 2^k, % 2^k "
+            "and & (2^k - 1) resolved only when the low part is declared below 2^k: first row + 1 <= rows < 2^16 for the nonbigmat layout); the symbolic "
+            "text / struct-record model of verifier/c04_txt.py (Python format specifications, fixed-width slicing, struct codes).",
+    "technique": "symbolic evaluation of writers and loaders on generic records (format specifications, struct codes, slices as values); interval regimes for the row "
+                 "count; interval bound on packed values",
 }
